@@ -1,5 +1,6 @@
 import PyxModel.Sexp
 import PyxModel.Sql.Loader
+import PyxModel.Sql.LexRx
 
 /-! s-expression encoding of the SQL-dialect model (shared by Driver/C01.lean and Driver/C12.lean) -/
 namespace Pyx.Sql.Wire
@@ -36,6 +37,35 @@ def ucOf? (rows : List Sexp) : Option UC :=
            upperOf := fun c => match look c with | some e => e.2.2.2.1 | none => [c]
            digitOf := fun c => match look c with | some e => e.2.2.2.2 | none => 0 }
   else none
+
+/-- PLY's token type -/
+def kindName : Kind → String
+  | .kw k => k.name
+  | .CARDINALITY => "CARDINALITY" | .COMMA => "COMMA" | .FRACTION => "FRACTION" | .GUID => "GUID" | .ID => "ID"
+  | .LPAREN => "LPAREN" | .MINUS => "MINUS" | .NUMBER => "NUMBER" | .RPAREN => "RPAREN" | .RELID => "RELID"
+  | .SEMICOLON => "SEMICOLON" | .STRING => "STRING"
+
+/-- a polynomial digest of the lexemes of a token stream (each lexeme followed by a separator), in 64-bit arithmetic -/
+def lexemeDigest (ts : List Tok) : Nat :=
+  (ts.foldl (fun (h : UInt64) t => (t.text.foldl (fun (h : UInt64) c => h * 1000003 + c.toNat.toUInt64 + 1) h) * 1000003) 7).toNat
+
+/-- a token stream in compact form: the token types in one string and the digest of the lexemes; `illegal` when `t_error`
+    raised -/
+def toksSexp : Option (List Tok) → Sexp
+  | some ts => .list [.str (" ".intercalate (ts.map fun t => kindName t.kind)), Sexp.ofNat (lexemeDigest ts)]
+  | none => .sym "illegal"
+
+/-- the regex engine is run on texts up to this length -/
+def rxLimit : Nat := 20000
+
+/-- the token stream of the hand scanners, and how the stream of the regex engine on the generated parse trees compares with
+    it: `same`, or the stream itself when it differs -/
+def lexBoth (u : UC) (t : Text) : Sexp :=
+  let hand := lex u t
+  .list [toksSexp hand,
+    if !rxKnown then .sym "unknown-regex"
+    else if t.length ≤ rxLimit then (let rx := lexRx u t; if rx == hand then .sym "same" else toksSexp rx)
+    else .sym "skipped"]
 
 def stmtSexp : Stmt → Sexp
   | .createTable k attrs => .list [.sym "table", txt k, .list (attrs.map fun a => .list [txt a.1, txt a.2])]
